@@ -133,6 +133,17 @@ def main():
                        "replay": f"VERIF_SEED={seed} python3 check.py {pid} {tier}", **payload}, f, indent=1, ensure_ascii=False)
         return os.path.relpath(path, ROOT)
 
+    # ---- 0. translator: the lookup tables of the current sources, regenerated as Lean data -----------
+    uses_tables = "Pep508.Theorems.Tables" in spec["lean_targets"]
+    rc_t, out_t = run([sys.executable, os.path.join(ROOT, "tools", "gen_tables.py")], cwd=ROOT, timeout=120)
+    if rc_t != 0 or "tables-ok" not in out_t:
+        notes.append("translator: " + out_t.strip()[-300:])
+        if uses_tables:
+            rp = write_replay("translator", {"broken": "tools/gen_tables.py (the tables of the current sources could not be read)", "raw": out_t[-2000:]})
+            violations.append((rp, " no-failing-input-found"))
+    elif uses_tables:
+        notes.append("translator: lean/Pep508/Generated/Tables.lean regenerated from /repo's sources")
+
     # ---- 1. proofs -----------------------------------------------------------------------
     targets = spec["lean_targets"] + ["driver"]
     rc, out = lean_build(targets)
